@@ -78,6 +78,9 @@ func c18Shapes() []c18Shape {
 	// the join path passes through the main dataset in the middle
 	out = append(out, c18Shape{Name: "3hop-via-main", Deps: []c18Dep{{DS: "D", Joins: []c18Join{{"M", "p", true}, {"L", "q", true}, {"M", "r", false}}}}})
 	// two declared dependencies that share the intermediate dataset L
+	// two declared paths that start at the same dependency dataset (address via "home" and via "work")
+	out = append(out, c18Shape{Name: "two-paths-one-dep", Deps: []c18Dep{
+		{DS: "D", Joins: []c18Join{{"M", "p", false}}}, {DS: "D", Joins: []c18Join{{"M", "q", false}}}}})
 	out = append(out, c18Shape{Name: "shared-link", Deps: []c18Dep{
 		{DS: "D", Joins: []c18Join{{"L", "p", false}, {"M", "q", false}}},
 		{DS: "E", Joins: []c18Join{{"L", "p", true}, {"M", "q", false}}},
@@ -227,8 +230,11 @@ func c18Alphabet(s c18Shape, batches []int) []c18Op {
 type recSink struct {
 	inner  Sink
 	got    []*server.Entity
+	at     []int // model commit index when the entity was handed over (read before a write injected into this call)
+	m      *model.World
 	failAt int
 	calls  int
+	onCall func(call int) // e.g. a write landing while the run is between two pages
 }
 
 func (r *recSink) GetConfig() map[string]interface{}  { return r.inner.GetConfig() }
@@ -238,10 +244,20 @@ func (r *recSink) endFullSync(ctx context.Context, runner *Runner) error {
 }
 func (r *recSink) processEntities(runner *Runner, entities []*server.Entity) error {
 	r.calls++
+	at := 0
+	if r.m != nil {
+		at = r.m.CommitIndex()
+	}
+	if r.onCall != nil {
+		r.onCall(r.calls)
+	}
 	if r.failAt > 0 && r.calls == r.failAt {
 		return fmt.Errorf("sink: injected failure at call %d", r.calls)
 	}
 	r.got = append(r.got, entities...)
+	for range entities {
+		r.at = append(r.at, at)
+	}
 	return r.inner.processEntities(runner, entities)
 }
 
@@ -250,6 +266,9 @@ type c18Params struct {
 	Batch int      `json:"batch"` // batch size of the initial and the final catch-up
 	// LatestOnly: the job's source is declared with LatestOnly (superseded versions are skipped when reading changes)
 	LatestOnly bool `json:"latest_only,omitempty"`
+	// InitW / InitAt: a write that lands while the first catch-up (fullsync) hands its InitAt-th page to the sink
+	InitW  *c18Op `json:"init_w,omitempty"`
+	InitAt int    `json:"init_at,omitempty"`
 }
 
 type c18Hist struct {
@@ -266,6 +285,10 @@ type c18Hist struct {
 	first     bool
 	tokens    map[string]uint64
 	pending   []*server.Entity // delivered by a failed run since the previous fixpoint
+	pendingAt []int
+	initW     *c18Op
+	initAt    int
+	initDone  bool
 }
 
 func (c *c18Hist) jobConfig(batch int) []byte {
@@ -389,8 +412,18 @@ func sortedKeys(m map[string]bool) []string {
 // runToFixpoint runs the job until its token stops changing and applies the oracle.
 func (c *c18Hist) runToFixpoint(check bool, label string) (herr string) {
 	real := c.jb.pipeline.spec().sink
-	rec := &recSink{inner: real, got: c.pending}
-	c.pending = nil
+	rec := &recSink{inner: real, got: c.pending, at: c.pendingAt, m: c.h.M}
+	c.pending, c.pendingAt = nil, nil
+	if c.first && c.initW != nil {
+		rec.onCall = func(call int) {
+			if call == c.initAt && !c.initDone {
+				c.initDone = true
+				if err := c.write(*c.initW); err != nil {
+					herr = "init write: " + err.Error()
+				}
+			}
+		}
+	}
 	c.jb.pipeline.spec().sink = rec
 	defer func() { c.jb.pipeline.spec().sink = real }()
 	prevTokens, _, _ := c.decodeTokens()
@@ -430,9 +463,11 @@ func (c *c18Hist) runToFixpoint(check bool, label string) (herr string) {
 	m := c.h.M
 	mainView := m.Datasets["M"].LatestView()
 	emitted := map[string]bool{}
-	for _, e := range rec.got {
+	lastAt := map[string]int{} // id -> stamp of its last emission
+	for i, e := range rec.got {
 		id := c.h.AbsID(e.ID)
 		emitted[id] = true
+		lastAt[id] = rec.at[i]
 		if !check {
 			continue
 		}
@@ -466,36 +501,45 @@ func (c *c18Hist) runToFixpoint(check bool, label string) (herr string) {
 	if check {
 		// ---- completeness ----
 		required := map[string]string{} // id -> reason
+		after := map[string]int{}       // id -> commit index of the latest change that requires it: emitted after that
+		need := func(id, why string, commit int) {
+			if _, has := required[id]; !has {
+				required[id] = why
+				after[id] = commit
+			} else if commit > after[id] {
+				after[id] = commit
+				required[id] = why
+			}
+		}
 		if c.first {
 			for id := range mainView {
-				required[id] = "first run: every main entity"
+				need(id, "first run: every main entity", -1)
 			}
-		} else {
+		}
+		{
 			md := m.Datasets["M"]
 			for _, v := range md.Feed[c.fixLen["M"]:] {
-				required[v.ID] = "changed itself"
+				if _, ok := mainView[v.ID]; ok {
+					need(v.ID, "changed itself", v.Commit)
+				}
 			}
 			declared, implicit := c.shape.allDeps()
 			for k, dep := range append(append([]c18Dep{}, declared...), implicit...) {
 				dd := m.Datasets[dep.DS]
-				changed := map[string]bool{}
+				changed := map[string]int{}
 				for _, v := range dd.Feed[c.fixLen[dep.DS]:] {
-					changed[v.ID] = true
+					changed[v.ID] = v.Commit
 				}
-				for x := range changed {
+				for x, commit := range changed {
 					for id := range c.reach(x, dep, -1) {
 						if _, ok := mainView[id]; ok {
-							if _, has := required[id]; !has {
-								required[id] = fmt.Sprintf("connected now to %s (changed in %s) through %v", x, dep.DS, dep.Joins)
-							}
+							need(id, fmt.Sprintf("connected now to %s (changed in %s) through %v", x, dep.DS, dep.Joins), commit)
 						}
 					}
 					if k < len(declared) && len(dep.Joins) > 0 && !dep.Joins[0].Inv && c.fixLen[dep.DS] > 0 {
 						for id := range c.reach(x, dep, c.fixCommit) {
 							if _, ok := mainView[id]; ok {
-								if _, has := required[id]; !has {
-									required[id] = fmt.Sprintf("was connected at the previous run to %s (changed in %s) through a first outgoing hop of %v", x, dep.DS, dep.Joins)
-								}
+								need(id, fmt.Sprintf("was connected at the previous run to %s (changed in %s) through a first outgoing hop of %v", x, dep.DS, dep.Joins), commit)
 							}
 						}
 					}
@@ -511,6 +555,8 @@ func (c *c18Hist) runToFixpoint(check bool, label string) (herr string) {
 		for _, id := range ids {
 			if !emitted[id] {
 				c.chk.Fail("C18:not-emitted:"+id, fmt.Sprintf("%s: after catching up (%d runs) the job never emitted %s (%s); emitted %v", label, runs, id, required[id], sortedKeys(emitted)))
+			} else if lastAt[id] < after[id] {
+				c.chk.Fail("C18:not-emitted-after-change:"+id, fmt.Sprintf("%s: after catching up (%d runs) the job emitted %s only before the change that requires it (%s)", label, runs, id, required[id]))
 			}
 		}
 		// ---- tokens ----
@@ -554,7 +600,7 @@ func c18Replay(task engine.SeqTask) (res engine.SeqResult) {
 	}()
 	jw := jWorld()
 	h := jw.W.NewHist()
-	c := &c18Hist{jw: jw, h: h, shape: p.Shape, latestOnly: p.LatestOnly, first: true, fixLen: map[string]int{}}
+	c := &c18Hist{jw: jw, h: h, shape: p.Shape, latestOnly: p.LatestOnly, first: true, fixLen: map[string]int{}, initW: p.InitW, initAt: p.InitAt}
 	jw.Jobs++
 	c.id = fmt.Sprintf("c18-%s-%d", h.Tag, jw.Jobs)
 	c.chk = &server.VCheck{H: h}
@@ -630,11 +676,11 @@ func c18Replay(task engine.SeqTask) (res engine.SeqResult) {
 				return
 			}
 			real := c.jb.pipeline.spec().sink
-			rec := &recSink{inner: real, got: c.pending, failAt: op.F}
+			rec := &recSink{inner: real, got: c.pending, at: c.pendingAt, m: c.h.M, failAt: op.F}
 			c.jb.pipeline.spec().sink = rec
 			pn := runJob(c.jb)
 			c.jb.pipeline.spec().sink = real
-			c.pending = rec.got
+			c.pending, c.pendingAt = rec.got, rec.at
 			if pn != "" {
 				c.chk.Fail("C18:run-panics", "the job run with a failing sink panicked: "+pn)
 			}
@@ -732,8 +778,8 @@ func init() {
 		}
 	})
 	engine.RegisterCheck("C18", func(r *engine.Run) {
-		r.Rule = "SEQ: for every join shape (2 one-hop, 4 two-hop and 8 three-hop direction patterns, a path through the main dataset in the middle, and two declared dependencies sharing a link dataset; declared in JSON and parsed by the real scheduler) and every batch size in the stated set (and, for shapes with an outgoing first hop of at most two hops, also with the source declared LatestOnly): every history up to the stated depth over {7 entity variants per dataset: property change, link to target 1/2/both/none, delete, second entity; run to fixpoint with batch size 1/2, one run whose sink rejects its 1st/2nd call} starting from a populated graph on which the job has caught up; every history ends with a run-to-fixpoint (the job is run until its token stops changing) whose emitted entities (recording double around the real DevNullSink) must contain every main entity that changed, every main entity connected now through the join path to a dependency or link entity changed since the previous fixpoint, and - for a first outgoing hop - connected as of the previous fixpoint; emitted entities must be versions of main-dataset entities with the latest version among them; tokens never go back nor beyond the end. distinct = distinct canonical end states"
-		r.Assumptions = []string{"entity ids are distinct per dataset (an id living in two datasets of the chain is outside)", "no write happens while the job runs: the graph as it stands when the job runs is the model's current graph", "track_queries (JavaScript) registration is not exercised, only declared dependencies"}
+		r.Rule = "SEQ: for every join shape (2 one-hop, 4 two-hop and 8 three-hop direction patterns, a path through the main dataset in the middle, and two declared dependencies sharing a link dataset; declared in JSON and parsed by the real scheduler) and every batch size in the stated set (and, for shapes with an outgoing first hop of at most two hops, also with the source declared LatestOnly): every history up to the stated depth over {7 entity variants per dataset: property change, link to target 1/2/both/none, delete, second entity; run to fixpoint with batch size 1/2, one run whose sink rejects its 1st/2nd call} starting from a populated graph on which the job has caught up (also with one dependency write - property change or rewiring - landing while that first catch-up is between its pages: the entity it requires must be emitted AFTER the write); every history ends with a run-to-fixpoint (the job is run until its token stops changing) whose emitted entities (recording double around the real DevNullSink) must contain every main entity that changed, every main entity connected now through the join path to a dependency or link entity changed since the previous fixpoint, and - for a first outgoing hop - connected as of the previous fixpoint; emitted entities must be versions of main-dataset entities with the latest version among them; tokens never go back nor beyond the end. distinct = distinct canonical end states"
+		r.Assumptions = []string{"entity ids are distinct per dataset (an id living in two datasets of the chain is outside)", "apart from the one dependency write injected between two pages of the first catch-up, no write happens while the job runs: the graph as it stands when the job runs is the model's current graph", "track_queries (JavaScript) registration is not exercised, only declared dependencies"}
 		shapes := c18Shapes()
 		type cfg struct {
 			shapes  []c18Shape
@@ -763,6 +809,43 @@ func init() {
 				alpha = append(alpha, ob)
 			}
 			engine.RunSeq(r, engine.SeqSpec{Name: fmt.Sprintf("c18-%s-latestonly", s.Name), WorkerArgs: []string{"worker", "c18"}, Alphabet: alpha, Params: params, Depth: depth, Budget: budget})
+		}
+		// a dependency write that lands while the first catch-up (the fullsync) is between two pages
+		for _, s := range shapes {
+			seen := map[string]bool{}
+			for _, d := range s.Deps {
+				if seen[d.DS] {
+					continue
+				}
+				seen[d.DS] = true
+				ids := c18IDs(d.DS)
+				holds := s.holds(d.DS)
+				keep, rewire := map[string][]string{}, map[string][]string{}
+				for pr, t := range holds {
+					keep[pr] = []string{c18IDs(t)[0]}
+					rewire[pr] = []string{c18IDs(t)[1]}
+				}
+				ws := []c18Op{{K: "w", DS: d.DS, ID: ids[0], V: 2, Refs: keep}}
+				if len(holds) > 0 {
+					ws = append(ws, c18Op{K: "w", DS: d.DS, ID: ids[0], V: 1, Refs: rewire})
+				}
+				for wi, w := range ws {
+					for _, at := range []int{1, 2} {
+						w := w
+						depth, budget := 1, 30*time.Second
+						if !r.Quick() {
+							depth, budget = 2, 10*time.Minute
+						}
+						params, _ := json.Marshal(c18Params{Shape: s, Batch: 1, InitW: &w, InitAt: at})
+						var alpha []json.RawMessage
+						for _, o := range c18Alphabet(s, []int{1}) {
+							ob, _ := json.Marshal(o)
+							alpha = append(alpha, ob)
+						}
+						engine.RunSeq(r, engine.SeqSpec{Name: fmt.Sprintf("c18-%s-write%d-%s-during-first-page%d", s.Name, wi, d.DS, at), WorkerArgs: []string{"worker", "c18"}, Alphabet: alpha, Params: params, Depth: depth, Budget: budget})
+					}
+				}
+			}
 		}
 		for _, pc := range plan {
 			for _, s := range pc.shapes {
